@@ -10,6 +10,14 @@ def run(cmd, **kw):
 
 ALT = '--alt' in sys.argv   # run against a scratch copy (/tmp/altrepo) instead of applying to /repo
 names = [a for a in sys.argv[1:] if a != '--alt'] or sorted(os.listdir('/verif/seeded'))
+# with --alt the checks run from a snapshot of /verif (sources, fixtures, known findings) taken now, so that the harness
+# can be edited while the matrix runs; build output stays in /verif/.target-alt
+CHECK_ROOT = '/verif'
+if ALT:
+    CHECK_ROOT = '/tmp/altverif'
+    run(f'rm -rf {CHECK_ROOT}; mkdir -p {CHECK_ROOT}')
+    assert run(f'rsync -a --exclude .git --exclude ".target*" --exclude .work --exclude .alt --exclude seeded --exclude evidence /verif/ {CHECK_ROOT}/').returncode == 0
+    run(f'mkdir -p {CHECK_ROOT}/evidence')
 for name in names:
     d = f'/verif/seeded/{name}'
     patch = f'{d}/patch.diff'
@@ -32,7 +40,7 @@ for name in names:
     checks = meta.get('run_checks', [prop])
     results = {}
     for c in checks:
-        r = run(f'cd /verif && {"VERIF_REPO=/tmp/altrepo " if ALT else ""}./check {c} quick')
+        r = run(f'cd {CHECK_ROOT} && {"VERIF_TARGET_DIR=/verif/.target-alt VERIF_REPO=/tmp/altrepo " if ALT else ""}./check {c} quick')
         sigs = re.findall(r'^\s+sig: (.*)$', r.stdout, re.M)
         results[c] = {"exit": r.returncode, "violation_signatures": sigs[:6]}
     if ALT:
@@ -49,4 +57,6 @@ for name in names:
         "detected": any(v["exit"] == 1 for v in results.values()),
     })
     json.dump(meta, open(meta_path, 'w'), indent=1)
-    print(name, {k: (v['exit'], v['violation_signatures'][:1]) for k, v in results.items()})
+    print(name, {k: (v['exit'], v['violation_signatures'][:1]) for k, v in results.items()}, flush=True)
+if ALT:
+    run(f'rm -rf {CHECK_ROOT}')
